@@ -24,6 +24,18 @@ How the state is exposed and seeded, family by family (streamz/dataframe/core.py
   expanding   sdf.expanding(with_state=True, start=)             as window
   ewm         sdf.ewm(com|alpha|span|halflife, with_state=True, start=).mean()   emits ({'dfs','state':(result, old_wt, is_first)}, result)
 
+Every public method of Rolling / Window / Expanding / EWM / WindowedGroupBy that returns a new window-like object has
+to carry with_state= and start= over, and each is exercised between `window(..., with_state=True, start=state)` and the
+aggregation:  Rolling.__getitem__/__getattr__ (`sdf.rolling(W).x`), Window.__getitem__/__getattr__ (`w.x`, `w[['x','y']]`),
+Window.map_partitions = every operator of OperatorMixin on a window (`w * 2`, `2 * w`, `w + 1`, `10 - w`, `-w`, `abs(w)`,
+`w ** 2`, `w % 2`, `w / 2`, `w.x + w.y`, `w.x * w.y`, `w.x + sdf.y`, `w.x > 1`, `&`, `~`; chains of two), Window.index
+(`w.index.size`, expanding only: diff_iloc/diff_loc cannot slice an Index), Window.reset_index (alone and after a transform),
+Window.groupby -> WindowedGroupBy and WindowedGroupBy.__getitem__/__getattr__ (`w.groupby(g).x`), EWM.__getitem__.
+Column selection happens on the frame (`sdf.x.window()`), on the window (`sdf.window().x * 2`) or after the transform
+(`(sdf.window() * 2).x`).  Not usable on the unchanged tree and therefore not exercised: boolean-mask selection `w[w.x > 1]`
+(InvalidIndexError), any operator / reset_index on an EWM object (EWM.__init__ is re-invoked without com/span/halflife/alpha:
+ValueError when the pipeline is built — loud, nothing is dropped silently).
+
 Correspondence / oracle.  For every case (a small table cut into batches, empty ones included):
   P0  the uninterrupted real pipeline, nobody touches its state: reference results R0 and states S0;
   P1  the same pipeline with state exposure; after every batch k the state object it EMITTED is kept
@@ -40,6 +52,8 @@ Oracles (model-free; signatures carry the family):
   emitted-state-mutated:<fam>    an emitted state object no longer has the contents it had when emitted
   resume-raises:<fam>:<Exc>      building or feeding a resumed pipeline raised where P0 did not
   state-not-emitted:<fam>        with_state=True was requested but plain results are emitted
+  window-transform-drops-state   any of the above in a case whose window object is transformed element-wise, when the same case with
+                                 the untransformed window passes (Window.map_partitions / __getitem__ / index lost with_state or start)
   window-reset_index-drops-state any of the above in a case whose window goes through Window.reset_index(), when the same
                                  case without reset_index() passes (Window.reset_index rebuilt the window without with_state/start)
 Comparison is exact (bit for bit, NaN == NaN) except var/std/ewm results: relative tolerance 1e-9.
@@ -211,6 +225,72 @@ def window_call(w, case):
     return getattr(w, agg)()
 
 
+# element-wise transforms applied to the WINDOW object (Window / Expanding are OperatorMixins: every operator goes
+# through Window.map_partitions, which rebuilds the window and has to carry with_state= and start= over)
+UNARY = {
+    "mul2": lambda w: w * 2, "rmul2": lambda w: 2 * w, "add1": lambda w: w + 1, "rsub": lambda w: 10 - w,
+    "neg": lambda w: -w, "abs": lambda w: abs(w), "pow2": lambda w: w ** 2, "mod2": lambda w: w % 2, "div2": lambda w: w / 2,
+}
+# transforms that also change the shape: two window operands, a window and a streaming column, comparisons,
+# boolean algebra, a list of columns (Window.__getitem__), the index (Window.index)
+TO_SERIES = {
+    "x+y": lambda w, sdf: w.x + w.y, "x*y": lambda w, sdf: w.x * w.y, "x+sdf.y": lambda w, sdf: w.x + sdf.y,
+    "gt1": lambda w, sdf: w.x > 1, "and": lambda w, sdf: (w.x > 1) & (w.y > 0), "not": lambda w, sdf: ~(w.x > 1),
+    "index": lambda w, sdf: w.index,
+}
+BOOL_TRANSFORMS = ("gt1", "and", "not")
+TO_FRAME = {"cols": lambda w, sdf: w[["x", "y"]], "colsg": lambda w, sdf: w[["x", "y", "g"]]}
+
+
+def transform_of(case):
+    return list(case.get("transform") or [])
+
+
+def gives_series(case):
+    return any(t in TO_SERIES for t in transform_of(case))
+
+
+def apply_transform(w, sdf, case):
+    for t in transform_of(case):
+        if t in UNARY:
+            w = UNARY[t](w)
+        elif t in TO_SERIES:
+            w = TO_SERIES[t](w, sdf)
+        else:
+            w = TO_FRAME[t](w, sdf)
+    return w
+
+
+def window_object(case, sdf, ws, kw):
+    """the window-like object the aggregation (or groupby) is called on: window creation, column selection,
+    element-wise transforms and reset_index in the order the case prescribes"""
+    fam = case["family"]
+    series = case["frame"] == "series"
+    if fam == "expanding":
+        make = lambda root: root.expanding(with_state=ws, **kw)
+    else:
+        wkw = {"n": case["W"]} if fam in ("window-n", "wgroupby-n") else {"value": "%ds" % case["W"]}
+        make = lambda root: root.window(with_state=ws, **wkw, **kw)
+    tr = transform_of(case)
+    reset = bool(case.get("reset_index"))
+    if fam in ("wgroupby-n", "wgroupby-t"):
+        w = apply_transform(make(sdf), sdf, case)
+        return w.reset_index() if reset else w
+    sel = case.get("select", "before")
+    if gives_series(case):                       # the transform itself picks the column(s)
+        return apply_transform(make(sdf), sdf, case)
+    if not series:
+        w = apply_transform(make(sdf), sdf, case)
+        return w
+    if reset:                                    # sdf.window(..) [transform] .reset_index().x
+        return apply_transform(make(sdf), sdf, case).reset_index().x
+    if sel == "before":                          # sdf.x.window(..) [transform]
+        return apply_transform(make(sdf.x), sdf, case)
+    if sel == "after" or not tr:                 # sdf.window(..).x [transform]        (Window.__getattr__)
+        return apply_transform(make(sdf).x, sdf, case)
+    return apply_transform(make(sdf), sdf, case).x          # "last": (transform(sdf.window(..))).x
+
+
 def build(case, sdf, start, ws):
     """the aggregation node of `case` on the streaming frame `sdf`, seeded with `start` (FRESH: the API default)"""
     from streamz.dataframe import aggregations as A
@@ -242,30 +322,16 @@ def build(case, sdf, start, ws):
         if series and case.get("select") == "after":
             return c11.roll_call(sdf.rolling(w, with_state=ws, **kw).x, case)          # Rolling.__getattr__
         return c11.roll_call(root.rolling(w, with_state=ws, **kw), case)
-    if fam in ("window-n", "window-t"):
-        wkw = {"n": case["W"]} if fam == "window-n" else {"value": "%ds" % case["W"]}
-        if case.get("reset_index"):
-            return window_call(sdf.window(with_state=ws, **wkw, **kw).reset_index().x, case)
-        if series and case.get("select") == "after":
-            return window_call(sdf.window(with_state=ws, **wkw, **kw).x, case)          # Window.__getattr__
-        return window_call(root.window(with_state=ws, **wkw, **kw), case)
+    if fam in ("window-n", "window-t", "expanding"):
+        return window_call(window_object(case, sdf, ws, kw), case)
     if fam in ("wgroupby-n", "wgroupby-t"):
-        wkw = {"n": case["W"]} if fam == "wgroupby-n" else {"value": "%ds" % case["W"]}
-        w = sdf.window(with_state=ws, **wkw, **kw)
-        if case.get("reset_index"):
-            w = w.reset_index()
+        w = window_object(case, sdf, ws, kw)
         g = w.groupby(grouper_of(case, sdf, w))
         if series:
             g = g.x
         if agg in ("var", "std"):
             return getattr(g, agg)(ddof=case.get("ddof", 1))
         return getattr(g, agg)()
-    if fam == "expanding":
-        if case.get("reset_index"):
-            return window_call(sdf.expanding(with_state=ws, **kw).reset_index().x, case)
-        if series and case.get("select") == "after":
-            return window_call(sdf.expanding(with_state=ws, **kw).x, case)
-        return window_call(root.expanding(with_state=ws, **kw), case)
     if fam == "ewm":
         k, (n, d) = case["param"], case["pval"]
         if series and case.get("select") == "after":
@@ -462,7 +528,7 @@ def model_applicable(case):
     if fam == "rolling":
         return True
     if fam == "expanding":
-        return agg in ("sum", "count", "mean", "var", "std")
+        return agg in ("sum", "count", "mean", "var", "std") and not transform_of(case)
     if fam == "ewm":
         return case["param"] != "halflife" and not any(v is None for c in c11.columns_of(case) for v in case[c])
     return False
@@ -615,6 +681,10 @@ def check_case(ctx, case, answers=None):
     ctx.case(case, nontrivial=nontrivial)
     if case.get("reset_index"):
         ctx.count("via-reset_index")
+    for t in transform_of(case):
+        ctx.count("window-transform:" + t)
+    if transform_of(case):
+        ctx.count("via-window-transform")
     if obs["problems"] and case.get("reset_index"):
         # does the very same case pass when the window is not taken through reset_index()?
         with warnings.catch_warnings():
@@ -630,6 +700,22 @@ def check_case(ctx, case, answers=None):
             obs["problems"] = [dict(best, sig="window-reset_index-drops-state",
                                     what="Window.reset_index() rebuilds the window without with_state= and start= (the same case without "
                                          "reset_index() passes): " + "; ".join(p["what"] for p in firsts[:3]))]
+    if obs["problems"] and transform_of(case) and not any(p["sig"] == "window-reset_index-drops-state" for p in obs["problems"]):
+        # does the same case pass when the window object is aggregated untransformed?
+        with warnings.catch_warnings():
+            warnings.simplefilter("ignore")
+            plain = observe(fix_shape(None, dict(case, transform=[])))
+        if "p0_error" not in plain and not plain["problems"]:
+            firsts, sigs = [], set()
+            for p in obs["problems"]:
+                if p["sig"] not in sigs:
+                    sigs.add(p["sig"])
+                    firsts.append(p)
+            best = next((p for p in firsts if p["sig"].startswith("resume-mismatch")), firsts[0])
+            obs["problems"] = [dict(best, sig="window-transform-drops-state",
+                                    what="an element-wise transform of the window object (%s; Window.map_partitions / __getitem__ / index rebuild the "
+                                         "window) loses with_state= or start= (the same case with the untransformed window passes): "
+                                         % "+".join(transform_of(case)) + "; ".join(p["what"] for p in firsts[:3]))]
     seen = set()
     for p in obs["problems"]:
         if p["sig"] in seen:
@@ -706,6 +792,37 @@ def params_for(rng, fam):
 def fix_shape(rng, case):
     """choices forced by what the code accepts at all (so that the uninterrupted run is inside the property)"""
     fam, agg = case["family"], case["agg"]
+    tr = transform_of(case)
+    if tr:
+        if fam in ("wgroupby-n", "wgroupby-t"):
+            tr = [t for t in tr if t in UNARY or t == "colsg"]
+        elif fam not in ("window-n", "window-t", "expanding"):
+            tr = []
+        if any(t in TO_SERIES for t in tr):
+            # the transform yields one column (possibly boolean, or the index): scalar aggregations only
+            first = next(i for i, t in enumerate(tr) if t in TO_SERIES)
+            tr = [t for t in tr[:first] if t in UNARY] + [tr[first]] + [t for t in tr[first + 1:] if t in UNARY and tr[first] not in BOOL_TRANSFORMS + ("index",)]
+            case["frame"] = "series"
+            case["reset_index"] = False
+            if "index" in tr and fam != "expanding":
+                # diff_iloc / diff_loc slice the retained batches with .iloc / .index, which an Index does not have
+                tr = ["gt1" if t == "index" else t for t in tr]
+            if "index" in tr:
+                tr = ["index"]
+                case["agg"] = agg = "size"              # Size is the aggregation whose initial/on_new accept an Index
+            elif any(t in BOOL_TRANSFORMS for t in tr) and agg not in ("sum", "count", "mean", "size"):
+                case["agg"] = agg = "sum"
+        if "cols" in tr and fam.startswith("wgroupby"):
+            tr = [t for t in tr if t != "cols"]
+        if case.get("reset_index") and fam == "window-t":
+            case["reset_index"] = False
+        if any(t in TO_FRAME for t in tr) and not any(t in TO_SERIES for t in tr):
+            case["select"] = "last"                     # a list of columns can only be taken from the frame window
+        if any(t in TO_SERIES for t in tr) and agg in ("var", "std") and case["sizes"] and case["sizes"][0] == 0:
+            case["agg"] = agg = "mean"                  # a single column's Var cannot take an empty first batch (see below)
+        case["transform"] = tr
+        if not tr:
+            case.pop("transform")
     series_var = agg in ("var", "std") and fam in ("reduction", "window-n", "window-t", "expanding")
     if case.get("reset_index"):
         # after reset_index() the old index is a datetime column: select the value column, group by a column name
@@ -745,6 +862,10 @@ def make_case(rng, fam, table=None, sizes=None):
     case["select"] = "after" if rng.random() < 0.5 else "before"      # sdf.window(..).x.agg() vs sdf.x.window(..).agg()
     if fam in ("window-n", "expanding", "wgroupby-n") and rng.random() < 0.25:
         case["reset_index"] = True
+    if fam in ("window-n", "window-t", "expanding", "wgroupby-n", "wgroupby-t") and rng.random() < 0.5:
+        pool = list(UNARY) * 2 + list(TO_SERIES) + list(TO_FRAME)
+        case["transform"] = [rng.choice(pool) for _ in range(rng.choice([1, 1, 2]))]
+        case["select"] = rng.choice(["before", "after", "last"])
     nb = len(sizes)
     r = rng.random()
     if r < 0.4:
@@ -797,6 +918,25 @@ CORPUS = [
     corpus_case("window-n", "mean", [2, 1, 1, 3], W=4, reset_index=True, mode="lockstep"),
     corpus_case("wgroupby-n", "sum", [2, 1, 0, 1, 3], W=3, grouper="col", reset_index=True, mode="eager"),
     corpus_case("expanding", "count", [2, 1, 0, 1, 3], reset_index=True, mode="after-reverse"),
+    # element-wise transforms of the window object between window(..., start=) and the aggregation
+    corpus_case("window-n", "sum", [3, 1, 2, 1], W=4, transform=["mul2"], select="last"),             # (sdf.window(n=4) * 2).x.sum()
+    corpus_case("expanding", "sum", [3, 1, 2, 1], transform=["mul2"], select="last", mode="eager"),
+    corpus_case("window-n", "mean", [2, 0, 2, 3], W=3, transform=["add1"], frame="df", mode="lockstep"),   # (w + 1).mean()
+    corpus_case("window-t", "sum", [0, 3, 0, 1, 3], W=2, transform=["neg"], select="after", mode="after-reverse"),
+    corpus_case("window-n", "sum", [2, 1, 1, 3], W=3, transform=["x+y"]),
+    corpus_case("expanding", "mean", [2, 1, 1, 3], transform=["x+sdf.y"], mode="lockstep"),
+    corpus_case("expanding", "count", [1, 2, 0, 4], transform=["gt1"], mode="eager"),
+    corpus_case("window-n", "sum", [1, 2, 0, 4], W=2, transform=["and"]),
+    corpus_case("window-t", "mean", [2, 2, 3], W=3, transform=["not"], mode="lockstep", new_first=True),
+    corpus_case("expanding", "size", [2, 1, 1, 3], transform=["index"]),
+    corpus_case("window-n", "var", [2, 2, 3], W=4, transform=["cols"], frame="df", ddof=1, mode="eager"),
+    corpus_case("window-n", "sum", [2, 1, 0, 1, 3], W=3, transform=["cols", "mul2"], select="last"),
+    corpus_case("window-n", "full", [2, 0, 2, 3], W=3, transform=["pow2"], select="before", mode="after-reverse"),
+    corpus_case("window-n", "sum", [2, 1, 0, 1, 3], W=3, transform=["mul2"], reset_index=True, mode="lockstep"),
+    corpus_case("expanding", "sum", [2, 1, 0, 1, 3], transform=["rsub", "div2"], reset_index=True),
+    corpus_case("wgroupby-n", "sum", [3, 1, 2, 1], W=4, grouper="col", transform=["mul2"]),
+    corpus_case("wgroupby-t", "mean", [2, 2, 3], W=3, grouper="sdf", transform=["abs", "add1"], mode="eager"),
+    corpus_case("wgroupby-n", "count", [2, 1, 0, 1, 3], W=3, grouper="win", transform=["colsg", "mod2"], frame="df", mode="lockstep"),
     corpus_case("window-t", "sum", [0, 3, 0, 1, 3, 0], W=2),
     corpus_case("window-t", "count", [1, 1, 1, 1, 1, 1, 1], W=1, frame="df", mode="lockstep"),
     corpus_case("window-t", "mean", [2, 2, 3], W=3, mode="eager", table=T7B),
@@ -852,10 +992,20 @@ def grid_cases(ctx):
         combos.append(("expanding", {"agg": a}))
     for k, v in (("com", [1, 1]), ("alpha", [1, 4]), ("span", [3, 1]), ("halflife", [2, 1])):
         combos.append(("ewm", {"agg": "ewm", "param": k, "pval": v}))
+    for t in list(UNARY) + list(TO_SERIES) + list(TO_FRAME):
+        for fam in ("window-n" if len(combos) % 2 else "window-t", "expanding"):
+            combos.append((fam, {"agg": rng.choice(["sum", "mean", "count"]), "W": rng.choice([2, 3, 4]), "transform": [t],
+                                 "select": rng.choice(["before", "after", "last"]), "reset_index": False}))
+    for t in UNARY:
+        combos.append((rng.choice(["wgroupby-n", "wgroupby-t"]), {"agg": rng.choice(["sum", "mean", "size"]), "W": 3,
+                                                                    "grouper": rng.choice(GROUPERS + ["win"]), "transform": [t], "reset_index": False}))
     comps = [[2, 0, 3, 2], [0, 3, 1, 0, 3], [1, 1, 1, 1, 1, 1, 1], [3, 4], [2, 2, 2, 1]]
     for i, (fam, p) in enumerate(combos):
         table = [T7, T7B][i % 2]
         case = make_case(rng, fam, table=dict(table), sizes=comps[i % len(comps)])
+        if "transform" not in p:
+            case.pop("transform", None)
+            case["reset_index"] = False
         case.update(p)
         if case["agg"] in ("var", "std"):
             case.setdefault("ddof", 1)
@@ -907,6 +1057,10 @@ ASSUMPTIONS = [
     "with_state=True does not compose with std() (= var() ** 0.5) and apply(): the map that follows the accumulate node receives the (state, result) tuple "
     "(std raises TypeError on the first batch, apply hands the tuple to the user function); that is a limitation of state exposure, not a resumption "
     "failure, and is not reported — std is checked with the state read from the node",
+    "window-like objects: every method that returns a new Rolling/Window/Expanding/EWM/WindowedGroupBy (getitem/getattr, map_partitions through every "
+    "operator, index, reset_index, groupby) is exercised between window(..., with_state=True, start=) and the aggregation; boolean-mask selection on a "
+    "window and operators on an EWM object raise when the pipeline is built on the unchanged tree and are not exercised; Window.index only with expanding "
+    "(diff_iloc/diff_loc cannot slice an Index) and only with size",
     "Lean comparison (Drivers/Resume.lean executing Resume.resumeAt / Resume.runWS on the C11 step functions) covers rolling, expanding sum/count/mean/var/std "
     "and NaN-free ewm with rational parameters; the other families are compared implementation against implementation only",
 ]
@@ -921,13 +1075,14 @@ def run(ctx):
         others = [m for m in MODES if m != c["mode"]]
         for m in (others if ctx.thorough() else [others[i % len(others)]]):
             cases.append(dict(c, mode=m))
-    cases += random_cases(ctx, 6300 if ctx.thorough() else 225)
+    cases += random_cases(ctx, 6300 if ctx.thorough() else 180)
     for i in range(0, len(cases), 2000):
         run_cases(ctx, cases[i:i + 2000])
     ctx.coverage["rule"] = (
         "corpus of boundary cases (every family; thorough: each under all four schedules, quick: under two); a grid with every (family, aggregation[, grouper kind / window kind]) "
         "pair on two fixed tables; seeded random tables (1..12 rows, NaN density 0-0.7, vanishing and NaN group keys, monotonic time index with duplicates "
-        "and gaps) cut into batches with empty batches sprinkled in, round-robin over the 9 families. For every case: ALL cut points k = 1..n-1, one resumed "
+        "and gaps) cut into batches with empty batches sprinkled in, round-robin over the 9 families; for the window / expanding / windowed-groupby families half of "
+        "the cases transform the window object element-wise (1-2 operators out of 18, every one also in the grid) before aggregating, a quarter go through reset_index(). For every case: ALL cut points k = 1..n-1, one resumed "
         "pipeline per cut from the un-copied emitted state, plus a chain rebuilt at a random subset (40%: all) of the cuts. Non-trivial: at least one cut and "
         "two non-empty batches. Distinct = distinct case JSON.")
 
